@@ -148,7 +148,8 @@ def rule(facts, res, rule_name, fids, floor=20):
             if key in seen:
                 continue
             seen.add(key)
-            if key in SAME_TYPE_OTHER_CELL:
+            # a reason written for a function also covers the private piece of it the borrows moved into
+            if key in SAME_TYPE_OTHER_CELL or "%s|%s" % (facts.root_of(f)["path"], cell) in SAME_TYPE_OTHER_CELL:
                 st["reasoned"] += 1
                 res.oblige(1, True)
                 continue
